@@ -300,8 +300,12 @@ def unparse_Attribute(node: Attribute) -> unparse_gen_t:
 
 def unparse_Subscript(node: Subscript) -> unparse_gen_t:
     value = yield PREC_ATTR_SLOT, node.value
-    if isinstance(node.slice, Tuple) and node.slice.elts:
+    if isinstance(node.slice, Tuple) and any(
+        isinstance(item, Slice) for item in node.slice.elts
+    ):
         # a[1:2, 3]: slices are only valid in an unparenthesized tuple
+        # (other tuples keep their parentheses: a[(*b, c)] runs on python 3.8+,
+        # a[*b, c] needs 3.11)
         elts = []
         for item in node.slice.elts:
             elts.append((yield PREC_EXPR_SLOT, item))
